@@ -25,7 +25,12 @@ _X86_FULL = dict(_ARITH_FULL)
 _X86_FULL.update({m: {"shims": ("struct",)} for m in ("xdsl.dialects.x86.ops", "xdsl.backend.x86.lowering.convert_arith_to_x86", "xdsl.backend.x86.lowering.convert_func_to_x86_func",
                                                       "xdsl.dialects.x86.attributes", "xdsl.dialects.x86.assembly")})
 
+_STR_METHODS = ("join", "startswith", "endswith", "find", "rfind", "count", "replace", "split", "index", "removeprefix", "removesuffix")
+_TEXT_FULL = {"xdsl.utils.arg_spec": {"shims": ("re",), "methods": _STR_METHODS, "calls": ("dict",)}, "xdsl.utils.mlir_lexer": {"shims": ("re",), "methods": _STR_METHODS},
+              "xdsl.utils.lexer": {"shims": ("re", "io"), "methods": _STR_METHODS}, "xdsl.utils.hints": {"shims": ()}}
+
 CHECKS = {
+    "C18": {"module": "vx.checks.c18", "instrument": {"full": _TEXT_FULL}, "maxtasksperchild": 20},
     "C09": {"module": "vx.checks.c09", "instrument": {}, "maxtasksperchild": 60},
     "C10": {"module": "vx.checks.c10", "instrument": {"full": {"xdsl.ir.core": {"shims": ()}, "xdsl.irdl.operations": {"shims": ()}}}, "maxtasksperchild": 40},
     "C23": {"module": "vx.checks.c23", "instrument": {}, "maxtasksperchild": 60},
